@@ -44,3 +44,144 @@ def check_pruning(include_all_inputs=True, include_all_enums=False):
         if g is not None:
             g.cleanup()
     return rep
+
+
+# ------------------------------------------------------------------------------------------ the statement on whole packages
+SCENARIOS = {
+    "nested-inputs-and-enums": (SCHEMA, QUERY, {}),
+    "input-reachable-only-through-list-of-lists": ("""
+        enum CellKind { X Y }
+        enum Unused2 { U V }
+        input Cell { kind: CellKind! note: String }
+        input Grid { rows: [[Cell!]!]! name: String }
+        input Flat { cells: [Cell] }
+        input NotUsed { u: Unused2 }
+        type Query { g(grid: Grid): Int f(flat: Flat): Int }
+        """, "query G($grid: Grid) { g(grid: $grid) }", {}),
+    "enum-only-as-variable-of-the-last-operation": ("""
+        enum First { A } enum Last { B } enum Never { C }
+        input I { n: Int }
+        type Query { a(v: First, i: I): Int b(v: Last): Int }
+        """, "query OpA($v: First, $i: I) { a(v: $v, i: $i) } query OpB { a } query OpC($v: Last) { b(v: $v) }", {}),
+    "no-input-object-variable-at-all": ("""
+        enum E1 { A } enum OnlyInUnusedInput { B }
+        input Unused { e: OnlyInUnusedInput }
+        type T { e: E1 }
+        type Query { t(n: Int, u: Unused): T }
+        """, "query Q($n: Int) { t(n: $n) { e } }", {}),
+    "custom-scalar-only-in-a-nested-input": ("""
+        scalar Money
+        input Price { amount: Money! }
+        input Order { price: Price note: String }
+        input Other { m: Money }
+        type Query { o(order: Order): Int }
+        """, "query O($order: Order) { o(order: $order) }", {"scalars": {"Money": {"type": "decimal.Decimal"}}}),
+    "diamond-repeated-type-and-cycle": ("""
+        enum K { A } enum K2 { B } enum KUnused { C }
+        input Leaf { k: K }
+        input Left { leaf: Leaf again: Leaf tail: Tail }
+        input Tail { k2: K2 back: Root }
+        input Right { leaf: Leaf }
+        input Root { left: Left right: Right self: Root after: After }
+        input After { n: Int }
+        input Unreached { k: KUnused }
+        type Query { r(root: Root): Int }
+        """, "query R($root: Root) { r(root: $root) }", {}),
+}
+
+
+def _closure(schema, doc):
+    """(input types, enums) the operations need: variable types, transitively through input fields; enums also from results"""
+    inputs, enums = set(), set()
+
+    def named(t):
+        while hasattr(t, "of_type"):
+            t = t.of_type
+        return t
+
+    def visit_type(t):
+        t = named(t)
+        if isinstance(t, G.GraphQLEnumType):
+            enums.add(t.name)
+        elif isinstance(t, G.GraphQLInputObjectType) and t.name not in inputs:
+            inputs.add(t.name)
+            for f in t.fields.values():
+                visit_type(f.type)
+    info = G.TypeInfo(schema)
+
+    class V(G.Visitor):
+        def enter_variable_definition(self, node, *_):
+            visit_type(G.type_from_ast(schema, node.type))
+
+        def enter_field(self, node, *_):
+            t = info.get_type()
+            if t is not None and isinstance(named(t), G.GraphQLEnumType):
+                enums.add(named(t).name)
+    G.visit(doc, G.TypeInfoVisitor(info, V()))
+    return inputs, enums
+
+
+def _classes(src):
+    import ast as _ast
+    return {n.name: _ast.unparse(n) for n in _ast.parse(src).body if isinstance(n, _ast.ClassDef)}
+
+
+def bounded_pruned_packages(tier, seed):
+    import textwrap
+    cases, fails = 0, []
+    for name, (sdl, query, opts) in SCENARIOS.items():
+        sdl = textwrap.dedent(sdl)
+        schema = G.build_schema(sdl)
+        need_inputs, need_enums = _closure(schema, G.parse(query))
+        all_inputs = {n for n, t in schema.type_map.items() if isinstance(t, G.GraphQLInputObjectType)}
+        all_enums = {n for n, t in schema.type_map.items() if isinstance(t, G.GraphQLEnumType) and not n.startswith("__")}
+        full = None
+        for inc_in in (True, False):
+            for inc_en in (True, False):
+                cases += 1
+                bad = []
+                g = None
+                try:
+                    g = generate_client(sdl, query, include_all_inputs=inc_in, include_all_enums=inc_en, **opts)
+                    g.module()                      # the package imports (all modules)
+                    for m in ("client", "input_types", "enums"):
+                        g.module(m)
+                    ins, ens = _classes(g.read("input_types.py")), _classes(g.read("enums.py"))
+                    if inc_in and inc_en:
+                        full = (ins, ens)
+                    want_in = all_inputs if inc_in else need_inputs
+                    # with all inputs kept, every enum an input mentions is needed too
+                    enums_of_inputs = set()
+                    for n in want_in:
+                        for f in schema.type_map[n].fields.values():
+                            t = f.type
+                            while hasattr(t, "of_type"):
+                                t = t.of_type
+                            if isinstance(t, G.GraphQLEnumType):
+                                enums_of_inputs.add(t.name)
+                    want_en = all_enums if inc_en else (need_enums | enums_of_inputs)
+                    if set(ins) != want_in:
+                        bad.append(f"retained-inputs-are-exactly-the-closure: missing {sorted(want_in - set(ins))} extra {sorted(set(ins) - want_in)}")
+                    if set(ens) != want_en:
+                        bad.append(f"retained-enums-are-exactly-the-closure: missing {sorted(want_en - set(ens))} extra {sorted(set(ens) - want_en)}")
+                    if full is not None:
+                        changed = [n for n, src in list(ins.items()) + list(ens.items()) if (full[0].get(n) or full[1].get(n)) != src]
+                        if changed:
+                            bad.append(f"retained-definitions-identical-to-the-unpruned-package: {changed}")
+                    for model in ins:
+                        cls = getattr(g.module("input_types"), model)
+                        if not getattr(cls, "__pydantic_complete__", True):
+                            bad.append(f"model-complete: {model}")
+                except Exception as e:      # noqa
+                    bad.append(f"package-generates-and-imports: {type(e).__name__}: {str(e)[:160]}")
+                finally:
+                    if g is not None:
+                        g.cleanup()
+                if bad:
+                    fails.append(dict(inputs=dict(scenario=f"{name}:include_all_inputs={inc_in},include_all_enums={inc_en}"), failed=bad, outcome=None))
+    return dict(function="ariadne_codegen.client_generators.package:PackageGenerator.generate", name="bounded.pruned-packages",
+                kind="bounded stand-in (end-to-end, native)",
+                domain=f"{len(SCENARIOS)} schemas/operation sets (nested inputs, list-of-lists fields, enum only as variable of the last operation, no input "
+                       "variable at all, custom scalar only in a nested input, diamond + repeated type + cycle) x 4 flag combinations; closure computed "
+                       "independently with graphql-core; package imported; retained definitions compared with the unpruned package",
+                cases=cases, failed=len(fails), failures=fails)
